@@ -6,10 +6,10 @@ package main
 import (
 	"bufio"
 	"bytes"
-	"testing/iotest"
 	"fmt"
 	"io"
 	"strings"
+	"testing/iotest"
 
 	"filippo.io/age"
 	"filippo.io/age/internal/stream"
